@@ -55,6 +55,8 @@ fn needs_c(sc: &Scenario) -> bool {
     has(&sc.setup) || sc.tasks.iter().any(has)
 }
 
+pub static REAL_THREADS: std::sync::atomic::AtomicBool = std::sync::atomic::AtomicBool::new(false);
+
 pub fn run_scenario(sc: &Scenario, keep_log: bool) -> Outcome {
     let mut out = Outcome::default();
     let ctx = match std::panic::catch_unwind(|| Ctx::build(sc, needs_c(sc))) {
@@ -151,6 +153,39 @@ pub fn run_scenario(sc: &Scenario, keep_log: bool) -> Outcome {
                 }
             }
             execs.push(ex);
+        }
+        if REAL_THREADS.load(std::sync::atomic::Ordering::Relaxed) {
+            // real-thread supplement (not deciding, uncontrolled): free-running OS threads,
+            // real contention on the real mutexes, real rayon in the plain build
+            std::thread::scope(|s| {
+                for (t, mut ex) in execs.into_iter().enumerate() {
+                    let ops = &sc.tasks[t];
+                    let results = results.clone();
+                    s.spawn(move || {
+                        let r = ex.run_ops(ops, None);
+                        let v = r.err();
+                        let stats = std::mem::take(&mut ex.stats);
+                        let log = std::mem::take(&mut ex.log);
+                        let h = ex.log_hash;
+                        drop(ex);
+                        results.lock().unwrap()[t] = Some((v, stats, h, log));
+                    });
+                }
+            });
+            let res = std::mem::take(&mut *results.lock().unwrap());
+            for r in res.into_iter().flatten() {
+                let (v, st, h, mut log) = r;
+                if out.violation.is_none() {
+                    out.violation = v;
+                }
+                out.stats.merge(&st);
+                hash = mix(hash, h);
+                out.log.append(&mut log);
+            }
+            out.stats.probe("real_thread_run");
+            drop(ex0);
+            out.hash = hash;
+            return out;
         }
         let mut bodies: Vec<Box<dyn FnOnce() + Send + '_>> = vec![];
         for (t, mut ex) in execs.into_iter().enumerate() {
